@@ -463,7 +463,7 @@ func RefactorSkeleton(seed int64, cfg *Config) *Program {
 		st.SrcLang, st.Src = cfg.SrcFor(st.Name)
 		return st
 	}
-	base := []string{"res", "bam", "out", "val"}[g.r.Intn(4)]
+	base := []string{"res", "bam", "outp", "val"}[g.r.Intn(4)]
 	ext := base + []string{"_alt", "2", "_index", "x"}[g.r.Intn(4)]
 	inb := []string{"v", "arg", "in_a"}[g.r.Intn(3)]
 	ine := inb + []string{"2", "_b", "s"}[g.r.Intn(3)]
@@ -484,7 +484,7 @@ func RefactorSkeleton(seed int64, cfg *Config) *Program {
 			{Callee: "USE", Alias: "U2", Disabled: ref("MKR", ext, "b"), Binds: []Binding{{Id: "x", Exp: ref("MKR", base, "a")}}},
 		},
 		Ret:    []Binding{{Id: base, Exp: ref("MKR", base)}, {Id: ext, Exp: ref("MKR", ext)}, {Id: "y", Exp: ref("U1", "y")}},
-		Retain: []*Exp{ref("MKR", base, "f"), ref("MKR", ext, "f"), ref("MKR", "n")}}
+		Retain: []*Exp{ref("MKR", base, "f"), ref("MKR", ext, "f")}}
 	top := &Pipeline{Name: "TOP", Outs: []Param{{Name: "y", Type: TInt}, {Name: "a", Type: TInt}, {Name: "f", Type: TFile}},
 		Calls: []*Call{
 			{Callee: "INNER", Binds: []Binding{{Id: inb, Exp: lit(int64(g.r.Intn(100)))}, {Id: ine, Exp: lit(int64(g.r.Intn(100)))}}},
